@@ -157,8 +157,10 @@ impl crate::fold::Fold<TextRange> for LinearLocator<'_> {
 
         let name = self.fold(name)?;
         let type_params = self.fold(type_params)?;
+        // Bases and keywords are interleaved in the source (`class A(x=1, *b)`), so the
+        // keywords are located without moving the cursor, as `fold_expr_call` does.
+        let keywords = LinearLookaheadLocator(self).fold(keywords)?;
         let bases = self.fold(bases)?;
-        let keywords = self.fold(keywords)?;
         let body = self.fold(body)?;
         let range = self.map_user(range, context)?;
 
